@@ -226,8 +226,8 @@ pub fn bfs<F: Family>(f: Arc<F>, depth: usize, threads: usize, replay_extra: Val
             break;
         }
         let fr = Arc::new(std::mem::take(&mut frontier));
-        let nshards = (threads * 4).min(fr.len()).max(1);
-        let chunk = fr.len().div_ceil(nshards);
+        let chunk = fr.len().div_ceil((threads * 4).min(fr.len()).max(1));
+        let nshards = fr.len().div_ceil(chunk);
         let (f2, fr2, ops2) = (f.clone(), fr.clone(), ops.clone());
         let work = move |s: usize, beat: &Beat| -> LevelOut<F::Model> {
             let f = &*f2;
